@@ -9,9 +9,9 @@
      select! { res = io.write(bytes) => res,  _ = (loop: recv() -> ChangeDecoding: apply, go on; Shutdown / None: return) => Err(Shutdown) }
    `select!` picks a ready branch at random; an event is the branch that was taken, so quantifying
    over all event lists covers every arrival order and every tie-break:
-     parked in run_one    : EFrame f | ECommand c | EClosed
-     parked in write_reply: EWriteDone | ECommand c | EClosed
-   EWriteDone while parked in run_one and EFrame while parked in write_reply (the reader is not polled
+     parked in run_one    : EFrame f | EReadFailed | ECommand c | EClosed
+     parked in write_reply: EWriteDone | EWriteFailed | ECommand c | EClosed
+   EWriteDone / EWriteFailed while parked in run_one and EFrame / EReadFailed while parked in write_reply (the reader is not polled
    during a write) are not possible outcomes; `run` skips them, `possible` recognises the lists that
    contain none. Definitions only. *)
 From Coq Require Import NArith List Bool.
@@ -24,17 +24,21 @@ Inductive command := ChangeDecoding (level : N) | Shutdown.
 
 Inductive sevent :=
 | EFrame (f : frame)          (* next_frame returned f *)
+| EReadFailed                 (* next_frame returned an error (bad frame, I/O error, end of stream): `frame?` *)
 | ECommand (c : command)      (* commands.recv() returned Some c *)
 | EClosed                     (* commands.recv() returned None: every ServerHandle / the server task is gone *)
-| EWriteDone.                 (* io.write completed: the reply is on the wire *)
+| EWriteDone                  (* io.write completed: the reply is on the wire *)
+| EWriteFailed.               (* io.write returned an error: `Ok(res?)` in write_reply, `?` in handle_frame and run *)
 
 Inductive run_end (E : Type) :=
 | ROpen                        (* events exhausted, parked in run_one's select *)
 | RBlocked (reply : list N)    (* events exhausted, parked in write_reply with this reply not yet delivered *)
 | RShutdown                    (* RequestError::Shutdown *)
+| RIo                          (* RequestError::Io: the reply write failed *)
+| RReader                      (* the error next_frame returned (BadFrame / Io) *)
 | RError (e : E)               (* a reply could not be formatted *)
 | RPanic.
-Arguments ROpen {E}. Arguments RBlocked {E}. Arguments RShutdown {E}. Arguments RError {E}. Arguments RPanic {E}.
+Arguments ROpen {E}. Arguments RBlocked {E}. Arguments RShutdown {E}. Arguments RIo {E}. Arguments RReader {E}. Arguments RError {E}. Arguments RPanic {E}.
 
 Inductive mode := MIdle | MWriting (reply : list N).
 
@@ -68,6 +72,16 @@ Fixpoint run (units : ucfg St) (decode : N) (m : mode) (evs : list sevent)
           match m with
           | MIdle => run units decode m rest                         (* not possible: skipped *)
           | MWriting r => let '(ws, u, lg, d, e) := run units decode MIdle rest in (r :: ws, u, lg, d, e)
+          end
+      | EReadFailed =>
+          match m with
+          | MWriting _ => run units decode m rest                    (* not possible: skipped *)
+          | MIdle => ([], units, [], decode, RReader)
+          end
+      | EWriteFailed =>
+          match m with
+          | MIdle => run units decode m rest                         (* not possible: skipped *)
+          | MWriting _ => ([], units, [], decode, RIo)               (* the session ends; the handler's effects stay *)
           end
       end
   end.
